@@ -88,7 +88,7 @@ M_RELEVANT = {
     "value-bits-changed": {"negative-zero", "tsid-preimage-collision", "name-regex-same-tagset"},
     "query-error": set(),
 }
-M_AGG = M_SELECT | M_LABELS | {"name-regex-same-tagset", "by-label-suffix-of-other-key", "empty-group-key"}
+M_AGG = M_SELECT | M_LABELS | {"name-regex-same-tagset", "empty-group-key"}
 
 
 def m_sig(what, cls):
